@@ -300,4 +300,108 @@ Section HistoryProofs.
 
   Lemma winv_init (e : env) : winv {| w_graphs := []; w_env := e |}.
   Proof. constructor. Qed.
+
+  (* ---------- blocked paths, at the level of one backward() call ---------- *)
+  Definition skel (ops ops' : ops_t) : Prop :=
+    forall k, match nth_error ops k, nth_error ops' k with
+              | Some a, Some b => o_op a = o_op b /\ o_args a = o_args b /\ map s_shape (o_rets a) = map s_shape (o_rets b)
+              | None, None => True
+              | _, _ => False
+              end.
+  Lemma skel_sg (ops ops' : ops_t) : sg ops = sg ops' -> skel ops ops'.
+  Proof. intros H k. pose proof (sg_nth ops ops' k H). destruct (nth_error ops k), (nth_error ops' k); tauto. Qed.
+  Lemma skel_sv (ops ops' : ops_t) : sv ops = sv ops' -> skel ops ops'.
+  Proof.
+    intros H k. pose proof (sv_nth ops ops' k H) as Hk. destruct (nth_error ops k), (nth_error ops' k); try tauto.
+    destruct Hk as (A & B & _ & C). repeat split; auto. apply (f_equal (map s_shape)) in C. rewrite !map_map in C. exact C.
+  Qed.
+  Lemma skel_sym (ops ops' : ops_t) : skel ops ops' -> skel ops' ops.
+  Proof. intros H k. specialize (H k). destruct (nth_error ops k), (nth_error ops' k); try tauto. destruct H as (A & B & C). auto. Qed.
+  Lemma skel_trans (o1 o2 o3 : ops_t) : skel o1 o2 -> skel o2 o3 -> skel o1 o3.
+  Proof.
+    intros H1 H2 k. specialize (H1 k). specialize (H2 k).
+    destruct (nth_error o1 k), (nth_error o2 k), (nth_error o3 k); try tauto.
+    destruct H1 as (A & B & C), H2 as (A' & B' & C'). repeat split; congruence.
+  Qed.
+  Lemma skel_glive (ops ops' : ops_t) T : skel ops ops' -> forall k, glive F ops T k -> glive F ops' T k.
+  Proof.
+    intros H k Hg. induction Hg as [|k oi a _ IH E Hn Ha]; [constructor|].
+    specialize (H k). rewrite E in H. destruct (nth_error ops' k) as [oi'|] eqn:E'; [|contradiction].
+    destruct H as (Eo & Ea & _). eapply gl_step; [exact IH|exact E'| |]; congruence.
+  Qed.
+  Lemma skel_inner (ops ops' : ops_t) : skel ops ops' -> forall k, inner_of F ops k = inner_of F ops' k.
+  Proof.
+    intros H k. specialize (H k). unfold inner_of. destruct (nth_error ops k), (nth_error ops' k); try tauto.
+    destruct H as (E & _). rewrite E. reflexivity.
+  Qed.
+  Lemma skel_slot_shape (ops ops' : ops_t) a s : skel ops ops' -> get_slot_ops ops a = Some s ->
+    exists s', get_slot_ops ops' a = Some s' /\ s_shape s' = s_shape s.
+  Proof.
+    intros H Hs. unfold get_slot_ops in *. specialize (H (fst a)).
+    destruct (nth_error ops (fst a)) as [oi|]; [|discriminate]. destruct (nth_error ops' (fst a)) as [oi'|]; [|contradiction].
+    destruct H as (_ & _ & Es).
+    assert (E : option_map s_shape (nth_error (o_rets oi) (snd a)) = option_map s_shape (nth_error (o_rets oi') (snd a)))
+      by (rewrite <- !nth_error_map, Es; reflexivity).
+    rewrite Hs in E. destruct (nth_error (o_rets oi') (snd a)) as [s'|]; [|discriminate]. simpl in E. exists s'. split; congruence.
+  Qed.
+  Lemma skel_shape_ok (ops ops' : ops_t) : skel ops ops' -> shape_ok F ops -> shape_ok F ops'.
+  Proof.
+    intros H Hok k oi' E Hi. pose proof (H k) as Hk. rewrite E in Hk.
+    destruct (nth_error ops k) as [oi|] eqn:E0; [|contradiction]. destruct Hk as (Eo & Ea & Es).
+    destruct (Hok k oi E0) as (ashs & Hf2 & Hfs); [congruence|]. exists ashs. split; [|congruence].
+    rewrite <- Ea. eapply Forall2_impl; [|exact Hf2]. intros a sh (s & Hs & Esh). cbv beta.
+    destruct (skel_slot_shape _ _ _ _ H Hs) as (s' & Hs' & Esh'). exists s'. split; congruence.
+  Qed.
+  Lemma skel_zero_of (ops ops' : ops_t) p z : skel ops ops' -> zero_of F VO ops p z -> zero_of F VO ops' p z.
+  Proof.
+    intros H (k & oi & s & E & Hi & Hin & ->). pose proof (H k) as Hk. rewrite E in Hk.
+    destruct (nth_error ops' k) as [oi'|] eqn:E'; [|contradiction]. destruct Hk as (Eo & _ & Es).
+    apply In_nth_error in Hin. destruct Hin as (j & Hj).
+    assert (Ej : option_map s_shape (nth_error (o_rets oi) j) = option_map s_shape (nth_error (o_rets oi') j))
+      by (rewrite <- !nth_error_map, Es; reflexivity).
+    rewrite Hj in Ej. destruct (nth_error (o_rets oi') j) as [s'|] eqn:Ej'; [|discriminate]. simpl in Ej.
+    exists k, oi', s'. repeat split; auto; [congruence|eapply nth_error_In; eauto|congruence].
+  Qed.
+
+  Section Blocked.
+    Hypothesis Hzz : forall sh, vadd VO (vzeros VO sh) (vzeros VO sh) = vzeros VO sh.
+    Hypothesis Hbwz : forall o ashs rshs xs ys, f_shape F o ashs = Some rshs ->
+      forall i inc, nth_error (f_bw F o xs ys (map (vzeros VO) rshs)) i = Some inc ->
+        exists sh, nth_error ashs i = Some sh /\ inc = vzeros VO sh.
+
+    (* A parameter none of whose operators is reached from the target by a gradient-carrying
+       path (all paths cross stop_gradient / constant / input / random operators, or there is no
+       path at all) only ever receives `+= zeros(its shape)`. *)
+    Theorem backward_blocked (g : gstate) e n g' e' : ginv F (g_ops g) -> gclean (g_ops g) -> shape_ok F (g_ops g) ->
+      backward F VO g e n = Some (g', e') ->
+      forall p, (forall j, glive F (g_ops g) (fst n) j -> inner_of F (g_ops g) j <> Some p) ->
+        exists zs, e_pgrad e' p = fold_left (vadd VO) zs (e_pgrad e p) /\ Forall (zero_of F VO (g_ops g) p) zs.
+    Proof.
+      intros Hinv Hcl Hshp H p Hp. unfold backward in H. destruct (get_slot g n) as [last_n|] eqn:Eslot; [|discriminate].
+      assert (Hpre : exists g1 e1, (match s_val last_n with Some _ => Some (g, e) | None =>
+                       match forward F g e n with Some (_, g1, e1) => Some (g1, e1) | None => None end end) = Some (g1, e1) /\
+                     frel F g e g1 e1 [fst n] /\ ginv F (g_ops g1)).
+      { destruct (s_val last_n).
+        - exists g, e. split; [reflexivity|]. split; [apply frel_refl|exact Hinv].
+        - unfold forward in *. rewrite Eslot in *.
+          destruct (fwd F (S (fst n)) g e n) as [[[v g1] e1]|] eqn:Ef; [|discriminate].
+          exists g1, e1. split; [reflexivity|]. destruct (fwd_spec F Hfw_len _ _ _ _ _ _ _ Hinv Ef) as (R & I1 & _). auto. }
+      destruct Hpre as (g1 & e1 & Hp1 & R & I1). rewrite Hp1 in H.
+      set (ops0 := upd_ops (g_ops g1) n (fun s => set_grad s (Some (vones VO (s_shape s))))) in *.
+      destruct (sweep F VO (fst n) ops0 e1 (g_blog g1)) as [[[ops' e1'] bl']|] eqn:Es; [|discriminate].
+      injection H as <- <-. pose proof R as (Hsv & _ & _ & Hg & _).
+      assert (Hsg0 : sg ops0 = sg (g_ops g1)) by (apply grad_only_sg; reflexivity).
+      assert (Hsk : skel (g_ops g) ops0).
+      { eapply skel_trans; [apply skel_sv; symmetry; exact Hsv|apply skel_sg; symmetry; exact Hsg0]. }
+      assert (Hwf0 : wf_ops ops0) by (eapply sg_wf; [symmetry; exact Hsg0|]; destruct I1 as (Hw & _); exact Hw).
+      assert (Hcl1 : gclean (g_ops g1)) by (eapply sv_gclean; eauto).
+      assert (Hz0 : forall b s, get_slot_ops ops0 b = Some s -> ~ glive F ops0 (fst n) (fst b) -> zgrad VO s).
+      { intros b s Hs Hnl. unfold ops0 in Hs. rewrite upd_ops_get in Hs.
+        destruct (Nat.eqb_spec (fst n) (fst b)) as [E|N]; [exfalso; apply Hnl; rewrite <- E; constructor|].
+        simpl in Hs. intros x Hx. rewrite (Hcl1 b s Hs) in Hx. discriminate. }
+      destruct (sweep_blocked F VO Hzz Hbwz _ _ _ _ _ _ _ (fst n) Hwf0 (skel_shape_ok _ _ Hsk Hshp) Es Hz0 p) as (zs & Ez & Hzs).
+      - intros j Hl. rewrite <- (skel_inner _ _ Hsk). apply Hp. eapply skel_glive; [apply skel_sym; exact Hsk|exact Hl].
+      - exists zs. split; [rewrite Ez; congruence|]. eapply Forall_impl; [|exact Hzs]. intros z. apply skel_zero_of. apply skel_sym. exact Hsk.
+    Qed.
+  End Blocked.
 End HistoryProofs.
